@@ -47,6 +47,9 @@ inductive BN : TEnv → AST → TVal → Prop
   /-- ㅁㄹ builds a list of its argument expressions, none of them evaluated -/
   | mkList {ρ n spf args sp} : encodeNumber n = [4, 3] →
       BN ρ (.call (.lit n spf) args sp) (.list (args.map (fun a => (a, ρ))))
+  /-- ㅈㄷ of a list: its number of elements — the list is evaluated, its elements are not -/
+  | lenList {ρ n spf a sp elems} : encodeNumber n = [7, 2] → BN ρ a (.list elems) →
+      BN ρ (.call (.lit n spf) [a] sp) (.int elems.length)
   /-- a list applied to an integer: the element at that position (negative positions count from the end) is evaluated —
   and no other element -/
   | index {ρ f a sp elems i e' ρ' v} : tagOf f = none → BN ρ f (.list elems) → BN ρ a (.int i) →
@@ -79,6 +82,7 @@ theorem BN.deterministic {ρ e v1 v2} (h1 : BN ρ e v1) (h2 : BN ρ e v2) : v1 =
     | mulInt _ _ _ => simp [tagOf] at hf
     | ltInt _ _ _ => simp [tagOf] at hf
     | mkList _ => simp [tagOf] at hf
+    | lenList _ _ => simp [tagOf] at hf
   | ctrue hn =>
     cases h2 with
     | ctrue _ => rfl
@@ -145,8 +149,15 @@ theorem BN.deterministic {ρ e v1 v2} (h1 : BN ρ e v1) (h2 : BN ρ e v2) : v1 =
     | addInt hn' _ _ => rw [hn] at hn'; cases hn'
     | mulInt hn' _ _ => rw [hn] at hn'; cases hn'
     | ltInt hn' _ _ => rw [hn] at hn'; cases hn'
+    | lenList hn' _ => rw [hn] at hn'; cases hn'
     | call hf _ _ => simp [tagOf] at hf
     | sel hf _ _ => simp [tagOf] at hf
+    | index hf _ _ _ _ => simp [tagOf] at hf
+  | lenList hn _ ih =>
+    cases h2 with
+    | lenList _ h' => have := ih h'; cases this; rfl
+    | mkList hn' => rw [hn] at hn'; cases hn'
+    | call hf _ _ => simp [tagOf] at hf
     | index hf _ _ _ _ => simp [tagOf] at hf
   | index hf _ _ hidx _ ih1 ih2 ih3 =>
     cases h2 with
@@ -157,6 +168,7 @@ theorem BN.deterministic {ρ e v1 v2} (h1 : BN ρ e v1) (h2 : BN ρ e v2) : v1 =
       exact ih3 hv'
     | call _ hf' _ => have := ih1 hf'; cases this
     | mkList _ => simp [tagOf] at hf
+    | lenList _ _ => simp [tagOf] at hf
 
 /-! ### ghost trees for heap objects -/
 
@@ -1093,6 +1105,39 @@ theorem adequacy {ρ e tv} (hbn : BN ρ e tv) : ∀ (G : Ghost) (s : Store) (w :
         refine Eval.frameTail (t' := tt) (lit := lit) ?_ (ev2.mono _ (by omega))
         rw [newFrame_cur_none hnone, he]
         exact hcomp.mono _ (Nat.le_max_left _ _)
+  | @lenList ρ n spf a sp elems hn hb1 ih1 =>
+    intro G s w t inv hex he hρ hnone
+    let env := (s.getCell t).env
+    have hsc := inv.cellScoped t hex
+    have hρ' : ρ = trEnv G s env := hρ.symm.trans (inv.cellEnv t hex)
+    have inv0 := inv.alloc (.lit n spf) env hsc
+    have ex0 := ext_alloc (G := G) inv.wf (.lit n spf) env (trEnv G s env)
+    obtain ⟨Ga, inva, exa, hmap, hargs⟩ := allocArgs_spec env [a] _ _ inv0 (hsc.ext ex0)
+    have hsz : (alloc s (.lit n spf) env).cells.size = s.cells.size + 1 := by simp [alloc]
+    simp only [allocArgs, List.map_cons, List.map_nil, hsz, alloc, Heap.size_push, trArg, List.cons.injEq, Prod.mk.injEq,
+      and_true] at hmap
+    obtain ⟨hx1, hx2⟩ := hmap
+    obtain ⟨_, _, hax1, hax2⟩ := hargs (.thunk (s.cells.size + 1) (tagOf a)) (by simp [allocArgs, alloc])
+    cases hax1
+    have hρa : trEnv (G.setCell s.cells.size (trEnv G s env)) (alloc s (.lit n spf) env) env = ρ := by
+      rw [trEnv_ext hsc ex0, ← hρ']
+    obtain ⟨G1, s1, v1, k1, f1, inv1, ex1, rv1⟩ := forces_any hb1 ih1 Ga _ w (s.cells.size + 1) inva hax2 hx1 (hx2.trans hρa)
+    cases rv1 with
+    | @list xs _ hxs hxsc =>
+      have hlen : xs.length = elems.length := by rw [← hxs, List.length_map]
+      have hbi : builtinOf n = some bLen := by simp [builtinOf, hn]
+      have hcomp : Eval s w (.comp (bodyOf (.call (.lit n spf) [a] sp) env)) k1 (.ok (.arg (.strict (.int xs.length)))) s1 w := by
+        refine rule_call_builtin s w _ n spf [a] sp env bLen (builtin_name hn (by decide)) hbi ?_
+        simp only [allocArgs, hsz, alloc, Heap.size_push]
+        exact eval_len_list f1 _ (Nat.le_refl _)
+      rw [hlen] at hcomp
+      have ex01 := (ex0.trans exa).trans ex1
+      have hd : Den G1 s1 t (.int elems.length) := (Den.ext ex01 hex).2 (inv.den_of he hρ (BN.lenList hn hb1))
+      have st := sameStatic_resolve (.ok (.int elems.length)) (s1.cells.size + 1) s1 t
+      refine ⟨G1, _, .int elems.length, k1 + 1, ?_, inv1.resolve _ t _ _ hd (.int _), ex01.trans (st.ext _), .int _⟩
+      refine Eval.frameVal ?_
+      rw [newFrame_cur_none hnone, he]
+      exact hcomp
   | @eqInt ρ n spf a1 a2 sp x y hn hb1 hb2 ih1 ih2 =>
     intro G s w t inv hex he hρ hnone
     let env := (s.getCell t).env
